@@ -188,7 +188,8 @@ def validate_traces(module, cfg, trace_path, index, max_events=20000, parallel=1
         if r["rc"] == 124:
             raise ToolError(f"TLC timed out validating {sp}")
         line = r["rejected_at"] or r["depth"] or 0
-        if "unexpected exception" in (r["error"] or "") or "Cannot convert value" in r["tail"]:
+        if ("unexpected exception" in (r["error"] or "") or "Cannot convert value" in r["tail"]
+                or "The error occurred when TLC was evaluating" in (r["error"] or "")):
             raise ToolError(f"TLC could not evaluate {sp}: {r['error']} {r['tail'][-800:]}")
         if line == 0 and not r["violated"]:
             raise ToolError(f"TLC failed on {sp}: {r['error']} {r['tail'][-600:]}")
